@@ -295,10 +295,14 @@ Definition k_fact_agg_distinct (p : lop) : bool :=
   existsb (fun s => match s with
                     | LAggregate [] aggs i =>
                         Nat.leb 2 (List.length (fst (chain_steps i)))
-                        && forallb (fun a => match simple_count a with Some _ => true | None => false end) aggs
+                        && forallb (fun a => match simple_count_pre a with Some _ => true | None => false end) aggs
                         && existsb ag_distinct aggs
                     | _ => false end) (subplans p).
+(** the classes still open at HEAD (K1 zone/edge, K2 index residual, K6 deeper type case, K8
+    count distinct and K9 zone <> were repaired in /repo and are kept as [_pre] models) *)
 Definition k_c10_any (st : store) (p : lop) : bool :=
+  k_index_num st p || k_range_num st p || k_fact_missing_level st p || k_fact_not_path p.
+Definition k_c10_any_pre (st : store) (p : lop) : bool :=
   k_zone_edge st p || k_index_residual st p || k_index_num st p || k_range_num st p
   || k_fact_missing_level st p || k_fact_type_case st p || k_fact_not_path p || k_fact_agg_distinct p
   || k_zone_ne st p.
